@@ -80,3 +80,104 @@ package object
 //@ trusted
 //@ requires[C12.ctx] ctx != nil && hasos(ctx)
 //@ modcomps H_ E_ M G_ C_
+
+// ---- C09: lock discipline for the shared type registries -----------------------------------------------------
+// Ghost lock state (assumed contracts of package sync): lock.w(m) / lock.r(m) say that the current goroutine
+// holds m for writing / reading. Lock is not re-entrant (taking it again would deadlock).
+//@ external sync.(*RWMutex).Lock
+//@ requires[C09.noreentry] !ghost("lock.w", bool, rw) && !ghost("lock.r", bool, rw)
+//@ modifies ghost("lock.w", bool, rw)
+//@ ensures ghost("lock.w", bool, rw)
+//@ external sync.(*RWMutex).Unlock
+//@ requires[C09.held] ghost("lock.w", bool, rw)
+//@ modifies ghost("lock.w", bool, rw)
+//@ ensures !ghost("lock.w", bool, rw)
+//@ external sync.(*RWMutex).RLock
+//@ requires[C09.noreentry] !ghost("lock.w", bool, rw)
+//@ modifies ghost("lock.r", bool, rw)
+//@ ensures ghost("lock.r", bool, rw)
+//@ external sync.(*RWMutex).RUnlock
+//@ requires[C09.held] ghost("lock.r", bool, rw)
+//@ modifies ghost("lock.r", bool, rw)
+//@ ensures !ghost("lock.r", bool, rw)
+//@ external sync.(*Mutex).Lock
+//@ requires[C09.noreentry] !ghost("lock.w", bool, m)
+//@ modifies ghost("lock.w", bool, m)
+//@ ensures ghost("lock.w", bool, m)
+//@ external sync.(*Mutex).Unlock
+//@ requires[C09.held] ghost("lock.w", bool, m)
+//@ modifies ghost("lock.w", bool, m)
+//@ ensures !ghost("lock.w", bool, m)
+
+//@ guarded typeConverters goTypeMutex
+//@ guarded goTypeRegistry goTypeMutex
+
+//@ func NewTypeConverter
+//@ props C09
+//@ requires !ghost("lock.w", bool, goTypeMutex) && !ghost("lock.r", bool, goTypeMutex) && goTypeMutex != nil
+//@ ensures[C09.released] !ghost("lock.w", bool, goTypeMutex)
+
+//@ func SetTypeConverter
+//@ props C09
+//@ requires !ghost("lock.w", bool, goTypeMutex) && !ghost("lock.r", bool, goTypeMutex) && goTypeMutex != nil
+//@ ensures[C09.released] !ghost("lock.w", bool, goTypeMutex)
+
+//@ func NewGoType
+//@ props C09
+//@ requires !ghost("lock.w", bool, goTypeMutex) && !ghost("lock.r", bool, goTypeMutex) && goTypeMutex != nil
+//@ ensures[C09.released] !ghost("lock.w", bool, goTypeMutex)
+
+// newGoType reads and fills the registry: only under the lock (its callers hold it).
+//@ func newGoType
+//@ props C09
+//@ requires[C09.lock] ghost("lock.w", bool, goTypeMutex)
+//@ modcomps H_ E_ M G_object_typeConverters G_object_goTypeRegistry
+//@ assumeframe
+
+// Everything that touches the registries or calls the functions that need the lock must be under contract
+// (so that its lock obligations are generated): listed here.
+//@ scan[C09.registry.users] C09 extcalls github.com/risor-io/risor/object.typeConverters,github.com/risor-io/risor/object.goTypeRegistry,github.com/risor-io/risor/object.getTypeConverter,github.com/risor-io/risor/object.createTypeConverter,github.com/risor-io/risor/object.newGoType,github.com/risor-io/risor/object.newStructConverter,github.com/risor-io/risor/object.(*GoType).GetConverter: (*GoType).GetConverter (*GoType).getConverter (*Proxy).call NewGoType NewTypeConverter SetTypeConverter createTypeConverter getTypeConverter init newArrayConverter newGoField newGoMethod newGoType newMapConverter newPointerConverter newSliceConverter newStructConverter
+
+// GetConverter takes the lock itself (KF-32 fixed); getConverter is the variant for callers that hold it.
+//@ func (*GoType).GetConverter
+//@ props C09
+//@ assume[types.nonnil] t != nil && goTypeMutex != nil
+//@ requires[C09.unlocked] !ghost("lock.w", bool, goTypeMutex) && !ghost("lock.r", bool, goTypeMutex)
+//@ modcomps H_ E_ M G_object_typeConverters G_object_goTypeRegistry
+//@ modifies ghost("lock.w", bool, goTypeMutex), ghost("lock.r", bool, goTypeMutex)
+//@ assumeframe
+//@ ensures[C09.released] !ghost("lock.w", bool, goTypeMutex) && !ghost("lock.r", bool, goTypeMutex)
+
+//@ func (*GoType).getConverter
+//@ props C09
+//@ assume[types.nonnil] t != nil
+//@ requires[C09.lock] ghost("lock.w", bool, goTypeMutex)
+//@ modcomps H_ E_ M G_object_typeConverters G_object_goTypeRegistry
+//@ assumeframe
+
+//@ func newGoField
+//@ props C09
+//@ requires[C09.lock] ghost("lock.w", bool, goTypeMutex)
+//@ modcomps H_ E_ M G_object_typeConverters G_object_goTypeRegistry
+//@ assumeframe
+
+//@ func newGoMethod
+//@ props C09
+//@ requires[C09.lock] ghost("lock.w", bool, goTypeMutex)
+//@ modcomps H_ E_ M G_object_typeConverters G_object_goTypeRegistry
+//@ assumeframe
+
+// A proxied method call runs without the lock and takes it (through GetConverter) once per parameter / result.
+//@ func (*Proxy).call
+//@ props C09
+//@ requires p != nil && m != nil && goTypeMutex != nil
+//@ requires[C09.unlocked] !ghost("lock.w", bool, goTypeMutex) && !ghost("lock.r", bool, goTypeMutex)
+//@ havoc Interface
+//@ invariant 1: !ghost("lock.w", bool, goTypeMutex) && !ghost("lock.r", bool, goTypeMutex)
+//@ invariant 2: !ghost("lock.w", bool, goTypeMutex) && !ghost("lock.r", bool, goTypeMutex)
+//@ invariant 3: !ghost("lock.w", bool, goTypeMutex) && !ghost("lock.r", bool, goTypeMutex)
+//@ invariant 4: !ghost("lock.w", bool, goTypeMutex) && !ghost("lock.r", bool, goTypeMutex)
+//@ modcomps H_ E_ M G_ C_
+//@ modifies ghost("lock.w", bool, goTypeMutex), ghost("lock.r", bool, goTypeMutex)
+//@ assumeframe
+//@ ensures[C09.released] !ghost("lock.w", bool, goTypeMutex) && !ghost("lock.r", bool, goTypeMutex)
